@@ -46,7 +46,7 @@ def enumerate_cases(tier, scope):
         ['wait', 1, None, None],
         ['wait', 1, 'msg', {'d': [1]}],
     ]
-    lasts = [['value', 5], ['value', None], ['value', {'__done_future__': 5}], ['stop', {'__done_future__': 1}, True], ['stop', 7, True], ['stop', 7, False], ['unsuccessful', 3], ['kill', 'bye'], ['kill', None], ['kill', '__nomsg__'], ['raise', 'e']]
+    lasts = [['value', 5], ['value', None], ['value', {'__done_future__': 5}], ['stop', {'__done_future__': 1}, True], ['stop', 7, True], ['stop', 7, False], ['unsuccessful', 3], ['unsuccessful', '__default__'], ['unsuccessful', 0], ['kill', 'bye'], ['kill', None], ['kill', '__nomsg__'], ['raise', 'e']]
     for first in firsts:
         for last in lasts:
             for res in (NOVALUE, 'v', None, 0, False, {'__exc__': 'boom'}, {'__tuple__': []}):
@@ -135,7 +135,7 @@ def model(program, resumes, enter_resumes=None):
         elif kind == 'stop':
             return calls, {'state': 'finished', 'result': ['ok', ret[1]], 'successful': ['ok', bool(ret[2])]}
         elif kind == 'unsuccessful':
-            return calls, {'state': 'finished', 'result': ['ok', ret[1]], 'successful': ['ok', False]}
+            return calls, {'state': 'finished', 'result': ['ok', None if ret[1] == '__default__' else ret[1]], 'successful': ['ok', False]}
         elif kind == 'kill':
             return calls, {'state': 'killed', 'kill_text': '<none>' if ret[1] == '__nomsg__' else ret[1]}
         elif kind == 'raise':
